@@ -1,5 +1,6 @@
 import Mdns.Lemmas.Sched
 import Mdns.Lemmas.ClientStale
+import Mdns.Lemmas.ClientCacheOnly
 import Mdns.Props.C03
 /-
   C13  Stopping a search really stops it; channel protocol.
@@ -587,6 +588,56 @@ theorem cache_only_refresh_silent (s : State) (now : Nat) (h : ∀ q ∈ s.queri
     exact h q hq
   simp only [refreshActive, ha, refreshTypes, List.eraseDups_nil, addTimers, List.nil_append, and_self]
 
+/-! #### a daemon that only browses cache-only sends no query at all (D23 and D23b) -/
+
+/-- **A cache-only daemon is silent - one iteration, every state, every input.**  Take ANY state
+    in which every browse is cache-only, no hostname search is open and no re-run is queued
+    (`CacheOnlyDaemon`: no retransmission, no follow-up `Resolve`, no `verify` resend; the fresh
+    daemon is such a state, `cache_only_daemon_init`), and ANY iteration - whenever it runs,
+    whatever datagrams it reads: PTR records without their SRV or address (the follow-up queries
+    of D23b), records reaching their refresh marks (D23), goodbyes, expiries - whose commands are
+    `browse_cache`, `stop_browse`, `stop_resolve_hostname`, `get_metrics` or options
+    (`quietCommand`: no `browse`, no `resolve_hostname`, no `verify`).  The iteration sends NO
+    query of any shape, and the state afterwards is again such a state.
+    NOT claimed: anything about a daemon in which some type is browsed actively - there an
+    instance that a cache-only browse also sees is followed up and refreshed on behalf of the
+    active browse (e.g. reached through another PTR name), and `refresh_only_for_active`,
+    `no_ptr_query_while_cache_only` are what holds per type. -/
+theorem cache_only_daemon_silent (s : State) (now : Nat) (pkts : List Packet) (cmds : List Command)
+    (h : CacheOnlyDaemon s) (hc : cmds.all quietCommand = true) :
+    (∀ qs known, Out.query qs known ∉ (iter s now pkts cmds).2) ∧ CacheOnlyDaemon (iter s now pkts cmds).1 :=
+  cacheOnlyDaemon_iter s now pkts cmds h hc
+
+/-- ... and over any history of such iterations -/
+theorem cache_only_daemon_silent_run : ∀ (h : List (Nat × List Packet × List Command)) (s : State),
+    CacheOnlyDaemon s → (∀ it ∈ h, it.2.2.all quietCommand = true) →
+    (∀ t qs known, (t, Out.query qs known) ∉ (run s h).2) ∧ CacheOnlyDaemon (run s h).1
+  | [], s, hs, _ => ⟨fun _ _ _ hm => (by cases hm), hs⟩
+  | (now, pkts, cmds) :: rest, s, hs, hc => by
+    obtain ⟨h1, h2⟩ := cacheOnlyDaemon_iter s now pkts cmds hs (hc _ List.mem_cons_self)
+    obtain ⟨h3, h4⟩ := cache_only_daemon_silent_run rest _ h2 (fun it hit => hc it (List.mem_cons_of_mem _ hit))
+    simp only [run]
+    refine ⟨?_, h4⟩
+    intro t qs known hm
+    rcases List.mem_append.mp hm with hm | hm
+    · obtain ⟨o, ho, he⟩ := List.mem_map.mp hm
+      cases he
+      exact h1 qs known ho
+    · exact h3 t qs known hm
+
+/-- the fresh daemon is a cache-only daemon (it browses nothing yet) -/
+theorem cache_only_daemon_init (t0 : Nat) (intfs : List Intf) : CacheOnlyDaemon (init t0 intfs) :=
+  ⟨fun _ h => (by cases h), rfl, rfl⟩
+
+/-- **"A cache-only browse never sends a query", whole histories.**  Start the daemon and run ANY
+    history - any times, any datagrams - in which the application only calls `browse_cache`,
+    `stop_browse`, `stop_resolve_hostname`, `get_metrics` and the options: the daemon never sends
+    a query. -/
+theorem cache_only_history_silent (t0 : Nat) (intfs : List Intf) (h : List (Nat × List Packet × List Command))
+    (hc : ∀ it ∈ h, it.2.2.all quietCommand = true) :
+    ∀ t qs known, (t, Out.query qs known) ∉ (run (init t0 intfs) h).2 :=
+  (cache_only_daemon_silent_run h _ (cache_only_daemon_init t0 intfs) hc).1
+
 /-- the delays are fine after every history from the start of the daemon -/
 theorem delays_ok_run (t0 : Nat) (intfs : List Intf) (h : List (Nat × List Packet × List Command)) :
     DelaysOk (run (init t0 intfs) h).1 := by
@@ -940,6 +991,34 @@ example :
           | .query qs _ => some (o.1, qs.map (·.2))
           | _ => none : Option (Nat × List Nat))) =
       [(1000, [12])] := by decide
+
+/-- an instance name with five parts ("a.b.c.d."), so that follow-ups are asked for it -/
+def inst4 : BList := [0x61, 0x2e, 0x62, 0x2e, 0x63, 0x2e, 0x64, 0x2e]
+
+/-- only the PTR of the announcement -/
+def ptrOnly : Packet :=
+  { C03.announce with msg := { C03.announce.msg with answers := [C03.wrec C03.ty 12 120 (.ptr inst4)], additionals := [] } }
+
+/-- the witness of D23b in small: `browse_cache` at 1000, a PTR without SRV / address arrives at
+    1500 and is reported found (code 0); no query follows (before the repair: the follow-ups
+    `ANY a.b.c.d.` at 2000, 2500 and 3000).  With `browse` they are sent, as C04 wants. -/
+example :
+    ((run (init 1000 [C03.eth0])
+        [(1000, [], [.browse C03.ty 1 true]), (1500, [ptrOnly], []), (2000, [], []), (2500, [], []), (3000, [], []),
+         (3500, [], [])]).2.filterMap
+        fun o => (match o.2 with
+          | .query qs _ => some (o.1, qs.map (·.2))
+          | .event 1 (.found ..) => some (o.1, [0])
+          | _ => none : Option (Nat × List Nat))) =
+      [(1500, [0])] ∧
+    ((run (init 1000 [C03.eth0])
+        [(1000, [], [.browse C03.ty 1 false]), (1500, [ptrOnly], []), (2000, [], []), (2500, [], []), (3000, [], []),
+         (3500, [], [])]).2.filterMap
+        fun o => (match o.2 with
+          | .query qs _ => some (o.1, qs.map (·.2))
+          | .event 1 (.found ..) => some (o.1, [0])
+          | _ => none : Option (Nat × List Nat))) =
+      [(1000, [12]), (1500, [0]), (2000, [12]), (2000, [255]), (2500, [255]), (3000, [255])] := by decide
 
 /-- `CacheOnlyQuiet` is what `browse_cache` leaves from the fresh daemon (the hypothesis of
     `no_ptr_query_while_cache_only` is satisfiable) -/
